@@ -70,6 +70,7 @@ import (
 	"strconv"
 	"strings"
 	"sync"
+	"sync/atomic"
 	"syscall"
 	"testing"
 	"time"
@@ -115,11 +116,30 @@ func verifC02Cluster(root string, lifetime time.Duration) *arvados.Cluster {
 	cluster.Collections.BlobTrash = true
 	cluster.Collections.BlobTrashLifetime = arvados.Duration(lifetime)
 	cluster.Collections.BlobDeleteConcurrency = 1
+	if mv := os.Getenv("VERIF_C02_MV"); mv != "" {
+		// several Directory volumes <root>/m<i>, one per descriptor (flag R = ReadOnly)
+		cluster.Volumes = map[string]arvados.Volume{}
+		for i, d := range strings.Split(mv, ",") {
+			params, _ := json.Marshal(map[string]interface{}{"Root": filepath.Join(root, fmt.Sprintf("m%d", i))})
+			cluster.Volumes[fmt.Sprintf("zzzzz-nyw5e-%015d", i)] = arvados.Volume{Replication: 1, Driver: "Directory",
+				DriverParameters: params, ReadOnly: strings.Contains(d[1:], "R")}
+		}
+		return cluster
+	}
 	params, _ := json.Marshal(map[string]interface{}{"Root": root, "Serialize": os.Getenv("VERIF_C02_SERIALIZE") == "1"})
 	cluster.Volumes = map[string]arvados.Volume{
 		"zzzzz-nyw5e-000000000000000": {Replication: 1, Driver: "Directory", DriverParameters: params},
 	}
 	return cluster
+}
+
+// makeRRVolumeManager ranges over a Go map: the mount order differs from process to process. The
+// case line fixes it (the property is stated for every order; the model takes the order as input).
+func verifC02SortMounts(vm *RRVolumeManager) {
+	for _, l := range [][]*VolumeMount{vm.mounts, vm.readables, vm.writables} {
+		l := l
+		sort.Slice(l, func(i, j int) bool { return l[i].UUID < l[j].UUID })
+	}
 }
 
 type verifC02Server struct {
@@ -140,6 +160,7 @@ func verifC02NewServer(root string, lifetime time.Duration) (*verifC02Server, er
 	if err != nil {
 		return nil, err
 	}
+	verifC02SortMounts(vm)
 	h := MakeRESTRouter(context.Background(), cluster, reg, vm, NewWorkQueue(), NewWorkQueue())
 	return &verifC02Server{cluster: cluster, volmgr: vm, handler: h}, nil
 }
@@ -194,6 +215,15 @@ type verifC02Gate struct {
 	mu   sync.Mutex
 	ctx  context.Context
 	wrap func(context.Context, io.Reader) io.Reader
+	idx  int
+}
+
+// mount number of the volume the request is working on (mv cases; one request per child process)
+var verifC02CurVol int32 = -1
+
+func (g *verifC02Gate) Touch(loc string) error {
+	atomic.StoreInt32(&verifC02CurVol, int32(g.idx))
+	return g.UnixVolume.Touch(loc)
 }
 
 func (g *verifC02Gate) setCtx(ctx context.Context) {
@@ -209,11 +239,13 @@ func (g *verifC02Gate) getCtx() context.Context {
 }
 
 func (g *verifC02Gate) Compare(ctx context.Context, loc string, expect []byte) error {
+	atomic.StoreInt32(&verifC02CurVol, int32(g.idx))
 	g.setCtx(ctx)
 	return g.UnixVolume.Compare(ctx, loc, expect)
 }
 
 func (g *verifC02Gate) Put(ctx context.Context, loc string, block []byte) error {
+	atomic.StoreInt32(&verifC02CurVol, int32(g.idx))
 	g.setCtx(ctx)
 	return putWithPipe(ctx, loc, block, g)
 }
@@ -308,6 +340,10 @@ func TestVerifC02Child(t *testing.T) {
 	f := strings.Split(spec, ":")
 	mode := f[len(f)-1]
 	target := -1
+	var mvVols []string
+	if f[0] == "mv" {
+		mvVols = strings.Split(f[2], ",")
+	}
 	if f[0] != "put2" && f[0] != "pool" && len(mode) > 1 && (mode[0] == 'k' || mode[0] == 'c') {
 		target, _ = strconv.Atoi(mode[1:])
 	}
@@ -345,10 +381,19 @@ func TestVerifC02Child(t *testing.T) {
 	resp := &verifC02Resp{ResponseRecorder: httptest.NewRecorder(), closed: make(chan bool, 1)}
 	handlerDone := make(chan struct{})
 	var gate *verifC02Gate
+	var gates []*verifC02Gate
 	if f[0] == "put" || f[0] == "put2" || f[0] == "pool" {
 		mnt := srv.volmgr.AllWritable()[0]
 		gate = &verifC02Gate{UnixVolume: mnt.Volume.(*UnixVolume)}
 		mnt.Volume = gate
+		gates = []*verifC02Gate{gate}
+	}
+	if f[0] == "mv" {
+		for i, mnt := range srv.volmgr.Mounts() {
+			g := &verifC02Gate{UnixVolume: mnt.Volume.(*UnixVolume), idx: i}
+			mnt.Volume = g
+			gates = append(gates, g)
+		}
 	}
 	// the client goes away now; returns when the request context is done (and, for a cancellation
 	// seen from the WriteBlock goroutine, when the handler has answered, so that what the writer
@@ -356,8 +401,8 @@ func TestVerifC02Child(t *testing.T) {
 	cancelNow := func(waitHandler bool) {
 		time.Sleep(5 * time.Millisecond)
 		resp.closed <- true
-		if gate != nil {
-			if ctx := gate.getCtx(); ctx != nil {
+		for _, g := range gates {
+			if ctx := g.getCtx(); ctx != nil {
 				select {
 				case <-ctx.Done():
 				case <-time.After(60 * time.Second):
@@ -390,7 +435,27 @@ func TestVerifC02Child(t *testing.T) {
 		n := count
 		count++
 		mu.Unlock()
-		say("P " + id)
+		if mvVols != nil {
+			cur := int(atomic.LoadInt32(&verifC02CurVol))
+			say(fmt.Sprintf("P %d/%s", cur, id))
+			if id == "WriteBlock:os.Chtimes:7" && cur >= 0 && cur < len(mvVols) && strings.Contains(mvVols[cur][1:], "X") {
+				// a failing volume: unlink the temp file of the running WriteBlock, the Chtimes that follows fails
+				h := verifC02Hash(verifC02Body(f[1]))
+				names, _ := filepath.Glob(filepath.Join(root, fmt.Sprintf("m%d", cur), h[:3], "tmp"+h+"*"))
+				best, bestT := "", time.Time{}
+				for _, nm := range names {
+					if fi, err := os.Lstat(nm); err == nil && (best == "" || fi.ModTime().After(bestT)) {
+						best, bestT = nm, fi.ModTime()
+					}
+				}
+				if best != "" {
+					os.Remove(best)
+					say("F")
+				}
+			}
+		} else {
+			say("P " + id)
+		}
 		if n == faultAt && (id == "WriteBlock:os.Chtimes:7" || id == "WriteBlock:v.os.Rename:13") {
 			// unlink the newest temp file of this block: the call that follows fails with ENOENT
 			h := verifC02Hash(verifC02Body(f[1]))
@@ -417,7 +482,7 @@ func TestVerifC02Child(t *testing.T) {
 	})
 	result := "bad-op"
 	switch f[0] {
-	case "put":
+	case "put", "mv":
 		body := verifC02Body(f[1])
 		srv.handler.ServeHTTP(resp, verifC02Request("PUT", "/"+verifC02Hash(body), body))
 		close(handlerDone)
@@ -811,6 +876,10 @@ func (h *verifC02Hist) observe() string {
 	if err != nil {
 		return "restart-failed"
 	}
+	return h.observeWith(srv)
+}
+
+func (h *verifC02Hist) observeWith(srv *verifC02Server) string {
 	var out []string
 	for _, spec := range h.bodies {
 		hash := verifC02Hash(verifC02Body(spec))
@@ -889,6 +958,9 @@ func verifC02Run(line string, tmp string, n int) (out string) {
 		// the instrumenter's point list is checked by the model; nothing to run here
 		return "points-ok"
 	}
+	if len(f) == 2 && f[0] == "mv" {
+		return verifC02RunMV(f[1], tmp, n)
+	}
 	if len(f) != 2 || (f[0] != "hist" && f[0] != "hists") {
 		return "bad-op"
 	}
@@ -938,6 +1010,77 @@ func verifC02Run(line string, tmp string, n int) (out string) {
 		return "env-only ; " + h.observe()
 	}
 	return strings.Join(res, " | ")
+}
+
+// mv <B>:<v0>,<v1>,…:<mode> — one PUT on a server with several Directory volumes (see the Lean driver).
+func verifC02RunMV(spec string, tmp string, n int) string {
+	g := strings.Split(spec, ":")
+	if len(g) != 3 {
+		return "bad-op"
+	}
+	vols := strings.Split(g[1], ",")
+	if len(vols) == 0 || len(vols) > 4 {
+		return "bad-op"
+	}
+	for _, d := range vols {
+		if d == "" || !strings.Contains("-icl", d[:1]) || strings.Trim(d[1:], "RFX") != "" {
+			return "bad-op"
+		}
+	}
+	if m := g[2]; !(m == "run" || (len(m) > 1 && (m[0] == 'k' || m[0] == 'c') && strings.Trim(m[1:], "0123456789") == "")) {
+		return "bad-op"
+	}
+	os.Setenv("VERIF_C02_SERIALIZE", "0")
+	os.Setenv("VERIF_C02_MV", g[1])
+	defer os.Unsetenv("VERIF_C02_MV")
+	base := filepath.Join(tmp, fmt.Sprintf("vol%d", n))
+	if err := os.Mkdir(base, 0755); err != nil {
+		panic(err)
+	}
+	defer os.RemoveAll(base)
+	body := verifC02Body(g[0])
+	hash := verifC02Hash(body)
+	kinds := map[byte]string{'i': "intact", 'c': "corrupt", 'l': "longer"}
+	for i, d := range vols {
+		sub := &verifC02Hist{root: filepath.Join(base, fmt.Sprintf("m%d", i))}
+		if err := os.Mkdir(sub.root, 0755); err != nil {
+			panic(err)
+		}
+		if k, ok := kinds[d[0]]; ok {
+			sub.seed(g[0], k)
+		}
+		if strings.Contains(d[1:], "F") {
+			sub.full()
+		}
+	}
+	h := &verifC02Hist{root: base}
+	r := h.child("mv:" + spec)
+	// what the restarted server shows: GET over all mounts, GET on each volume alone, /index, listing
+	srv, err := verifC02NewServer(base, time.Hour)
+	if err != nil {
+		return r + " ; restart-failed"
+	}
+	get := func(s *verifC02Server) string {
+		resp := httptest.NewRecorder()
+		s.handler.ServeHTTP(resp, verifC02Request("GET", "/"+hash, nil))
+		if resp.Code == 200 {
+			return fmt.Sprintf("200/%d/%s", resp.Body.Len(), verifC02Hash(resp.Body.Bytes()))
+		}
+		return strconv.Itoa(resp.Code)
+	}
+	out := []string{fmt.Sprintf("get:%s=%s", g[0], get(srv))}
+	os.Unsetenv("VERIF_C02_MV")
+	for i := range vols {
+		one, err := verifC02NewServer(filepath.Join(base, fmt.Sprintf("m%d", i)), time.Hour)
+		if err != nil {
+			return r + " ; restart-failed"
+		}
+		out = append(out, fmt.Sprintf("v%d:get=%s", i, get(one)))
+	}
+	os.Setenv("VERIF_C02_MV", g[1])
+	h.bodies = nil
+	rest := (&verifC02Hist{root: base}).observeWith(srv)
+	return r + " ; " + strings.Join(out, " ") + " " + rest
 }
 
 func TestVerifC02(t *testing.T) {
